@@ -6,7 +6,7 @@ FILES = ['theories/Base.v', 'theories/gen/Codec.v', 'theories/gen/Tp21Gen.v', 't
          'theories/Model21.v', 'theories/Replay21.v', 'proofs/CodecProofs.v', 'proofs/Flat.v', 'proofs/Tp21Seg.v',
          'proofs/Tp21Resp.v', 'proofs/Tp21Orig.v', 'proofs/FrameLocal.v', 'proofs/Tp21Bam.v',
          'theories/SkelDefs.v', 'theories/FlowDefs.v', 'theories/gen/SkelGen.v', 'proofs/FlowProofs.v', 'proofs/OrderProofs.v',
-         'proofs/Net21.v', 'proofs/Net21Proofs.v', 'proofs/Net21Bam.v']
+         'proofs/Net21.v', 'proofs/Net21Proofs.v', 'proofs/Net21Bam.v', 'proofs/Net21Seq.v']
 
 
 def gen(rng, k):
